@@ -57,8 +57,9 @@ def _ints(rng, n, lo, hi, even=False):
     return 2 * v if even else v
 
 
-def build(cname, sname, kind, rng, order=3):
-    """kind in {'plain', 'jumps', 'vac', 'vacplain'}; returns a Bundle (or None if the combination is not constructible)."""
+def build(cname, sname, kind, rng, order=3, given=None):
+    """kind in {'plain', 'jumps', 'vac', 'vacplain'}; returns a Bundle.  `given` = the `build` dict of an earlier
+    bundle: reconstruct exactly that sampler (used by replays)."""
     from onsager import supercell, cluster
     crys, chem, ccut, jcut, spectator = crystals()[cname]
     superlatt = SUPERLATTS[sname]
@@ -71,31 +72,42 @@ def build(cname, sname, kind, rng, order=3):
         vce = cluster.makeVacancyClusters(crys, chem, ce)
         _CACHE[key] = (ce, jn, vce, cluster.makeTSclusters(crys, chem, jn, ce), cluster.makeTSclusters(crys, chem, jn, vce))
     ce, jn, vce, TS, TSv = _CACHE[key]
-    socc = np.array([rng.randint(0, 1) for _ in range(sup.size * sup.Nspec)], dtype=int)
+    g = given or {}
+    socc = np.array(g['socc'] if given else [rng.randint(0, 1) for _ in range(sup.size * sup.Nspec)], dtype=int)
     vac = None
     if kind in ('vac', 'vacplain'):
         cand = [n for n in range(nsites) if sup.ciR(n)[0][0] == chem]
-        vac = rng.choice(cand)
+        vac = g['vacancy'] if given else rng.choice(cand)
         sup.addvacancy(vac)
         cexp = ce + vce
     else:
         cexp = ce
-    Ev = _ints(rng, len(cexp) + 1, -6, 6, even=True)
+    Ev = np.array(g['Evalues']) if given else _ints(rng, len(cexp) + 1, -6, 6, even=True)
+    KRA = TSval = np.zeros(0)
     if kind in ('plain', 'vacplain'):
         MC = cluster.MonteCarloSampler(sup, socc, cexp, Ev)
     else:
         ts = TSv if kind == 'vac' else TS
-        MC = cluster.MonteCarloSampler(sup, socc, cexp, Ev, chem, jn, KRAvalues=_ints(rng, len(jn), 0, 6),
-                                       TSclusters=ts, TSvalues=_ints(rng, len(ts), -4, 4))
+        KRA = np.array(g['KRAvalues']) if given else _ints(rng, len(jn), 0, 6)
+        TSval = np.array(g['TSvalues']) if given else _ints(rng, len(ts), -4, 4)
+        MC = cluster.MonteCarloSampler(sup, socc, cexp, Ev, chem, jn, KRAvalues=KRA, TSclusters=ts, TSvalues=TSval)
     b = Bundle()
     b.name = '%s/%s/%s' % (cname, sname, kind)
     b.MC, b.nsites, b.vacancy = MC, nsites, (-1 if vac is None else int(vac))
-    b.build = dict(crystal=cname, superlatt=superlatt.tolist(), kind=kind, order=order, cluster_cutoff=ccut,
-                   jump_cutoff=jcut, spectator=list(spectator), socc=socc.tolist(), vacancy=b.vacancy,
-                   Evalues=Ev.tolist())
+    b.build = dict(crystal=cname, superlatt_name=sname, superlatt=superlatt.tolist(), kind=kind, order=order,
+                   cluster_cutoff=ccut, jump_cutoff=jcut, spectator=list(spectator), socc=socc.tolist(), vacancy=b.vacancy,
+                   Evalues=Ev.tolist(), KRAvalues=KRA.tolist(), TSvalues=TSval.tolist(),
+                   how='onsager.cluster.makeclusters(crys, cluster_cutoff, order) [+ makeVacancyClusters], '
+                       'crys.jumpnetwork(0, jump_cutoff), makeTSclusters; ClusterSupercell(crys, superlatt, spectator) '
+                       '[.addvacancy(vacancy)]; MonteCarloSampler(sup, socc, clusters, Evalues, 0, jumpnetwork, KRAvalues, '
+                       'TSclusters, TSvalues) — see harness/props/mc_common.py: build')
     export(b)
     b.pristine = clone(MC)
     return b
+
+
+def rebuild(info):
+    return build(info['crystal'], info['superlatt_name'], info['kind'], None, order=info['order'], given=info)
 
 
 def clone(MC):
